@@ -206,4 +206,5 @@ func init() {
 		return dumpV(outs[0])
 	}
 	runners["prog"] = func(a []string) string { return runProg(strings.Join(a, "")) }
+	runners["api"] = func(a []string) string { return runProg(strings.Join(a, "")) }
 }
